@@ -363,6 +363,68 @@ mod imp {
         VAbs,
         VRank(bool, bool),
     }
+    // ---- audit: the boolean aggregations vany / vall and the masked family (tea-agg) ---------------------------
+    fn bo(xs: &[f64]) -> Vec<Option<bool>> {
+        xs.iter().map(|x| if x.is_nan() { None } else { Some(*x > 0.0) }).collect()
+    }
+    fn b2(any: bool, all: bool) -> Vec<Cell> { vec![Cell::Int(any as i128), Cell::Int(all as i128)] }
+    /// vany vall through Vec<Option<bool>>, its option view, titer, VecDeque<Option<bool>>; Vec<bool> (+ its option view) when no null
+    pub fn aggb_runs(xs: &[f64]) -> Vec<Cell> {
+        let b = bo(xs);
+        let dq: VecDeque<Option<bool>> = vh::wrapped_deque(&b);
+        let mut runs = vec![];
+        runs.push(run(0, guarded(AssertUnwindSafe(|| b2(b.clone().vany(), b.clone().vall())))));
+        { let o = b.opt(); runs.push(run(0, guarded(AssertUnwindSafe(|| b2(o.titer().vany(), o.titer().vall()))))); }
+        runs.push(run(0, guarded(AssertUnwindSafe(|| b2(b.titer().vany(), b.titer().vall())))));
+        runs.push(run(0, guarded(AssertUnwindSafe(|| b2(dq.titer().vany(), dq.titer().vall())))));
+        if !Iterator::any(&mut xs.iter(), |x| x.is_nan()) {
+            let pb: Vec<bool> = xs.iter().map(|x| *x > 0.0).collect();
+            runs.push(run(0, guarded(AssertUnwindSafe(|| b2(pb.clone().vany(), pb.clone().vall())))));
+            { let o = pb.opt(); runs.push(run(0, guarded(AssertUnwindSafe(|| b2(o.titer().vany(), o.titer().vall()))))); }
+        }
+        join(runs)
+    }
+    pub fn aggk<T, I, U, M>(mk: impl Fn() -> I, mkm: impl Fn() -> M, maxmp: usize) -> Result<Vec<Cell>, u8>
+    where
+        I: IntoIterator<Item = T>,
+        M: IntoIterator<Item = U>,
+        T: IsNone,
+        T::Inner: Number + ToCell,
+        U: IsNone,
+        U::Inner: Cast<bool>,
+    {
+        guarded(AssertUnwindSafe(|| {
+            let mut c = vec![];
+            for mp in 0..=maxmp {
+                let (n, s) = mk().n_vsum_filter(mkm());
+                c.push(Cell::Int(n as i128));
+                c.push(s.cell());
+                c.push(match mk().n_sum_filter(mkm()) { Some(v) => v.cell(), None => Cell::Null });
+                c.push(Cell::F(mk().vmean_filter(mkm(), mp)));
+            }
+            c
+        }))
+    }
+    /// data: Vec<f64> / Vec<Option<f64>> / option views; mask: Vec<Option<bool>> / its option view / VecDeque; Vec<bool> when no null flag
+    pub fn aggk_runs(xs: &[f64], ms: &[f64], maxmp: usize) -> Vec<Cell> {
+        let xf: Vec<f64> = xs.to_vec();
+        let xo: Vec<Option<f64>> = encv(xs);
+        let mo = bo(ms);
+        let dq: VecDeque<Option<bool>> = vh::wrapped_deque(&mo);
+        let mut runs = vec![];
+        runs.push(run(0, aggk(|| xf.clone(), || mo.clone(), maxmp)));
+        runs.push(run(0, aggk(|| xo.clone(), || mo.clone(), maxmp)));
+        { let o = xf.opt(); runs.push(run(0, aggk(|| o.titer(), || mo.clone(), maxmp))); }
+        { let o = mo.opt(); runs.push(run(0, aggk(|| xo.clone(), || o.titer(), maxmp))); }
+        runs.push(run(0, aggk(|| xf.titer(), || dq.titer(), maxmp)));
+        if !Iterator::any(&mut ms.iter(), |x| x.is_nan()) {
+            let pb: Vec<bool> = ms.iter().map(|x| *x > 0.0).collect();
+            runs.push(run(0, aggk(|| xf.clone(), || pb.clone(), maxmp)));
+            runs.push(run(0, aggk(|| xo.clone(), || pb.clone(), maxmp)));
+        }
+        join(runs)
+    }
+
     fn collect_len<X: ToCell>(it: impl Iterator<Item = X>) -> Vec<Cell> {
         let v: Vec<X> = Iterator::collect(it);
         let mut c = vec![Cell::Int(v.len() as i128)];
@@ -633,6 +695,64 @@ impl Gen {
             }
         }
     }
+    // ---------------- audit: boolean aggregations and the masked family, both parts -------------------------------
+    fn enc_aggb(&mut self, xs: &[f64], style: &str) {
+        let len = xs.len();
+        let base = format!("part=enc len={} nv={} nulls={} style={}{}", len.min(12), nv_tag(xs), null_tag(xs), style, if len == 0 { " nt=0" } else { "" });
+        self.em.case("custom:rel:exact", &format!("fn=aggb {}", base), &format!("part=enc group=aggb (vany vall; flag = x > 0, NaN = null flag) xs={}", fmt_xs(xs)),
+            || format!("(aggb {})", coq_fl(xs)), || imp::aggb_runs(xs));
+    }
+    fn enc_aggk(&mut self, xs: &[f64], ms: &[f64], style: &str) {
+        let len = xs.len().min(ms.len());
+        let maxmp = len.min(4) + 1;
+        let base = format!("part=enc len={} nv={} nulls={} mnulls={} style={}{}", len.min(12), nv_tag(xs), null_tag(xs), null_tag(ms), style, if len == 0 { " nt=0" } else { "" });
+        self.em.case("custom:rel:1e-9", &format!("fn=aggk {}", base),
+            &format!("part=enc group=aggk (mp 0..={}: n_vsum_filter.0 .1 n_sum_filter vmean_filter; flag = m > 0, NaN = null flag) xs={} mask={}", maxmp, fmt_xs(xs), fmt_xs(ms)),
+            || format!("(aggk {} {} {})", coq_nat(maxmp), coq_fl(xs), coq_fl(ms)), || imp::aggk_runs(xs, ms, maxmp));
+    }
+    fn ins_aggb(&mut self, xs: &[f64], variants: &[(String, Vec<bool>)], scope: &str) {
+        let pats: Vec<String> = variants.iter().map(|(n, m)| format!("{}:{}", n, mask_str(m))).collect();
+        let base = format!("part=ins len={} nv={} nulls={} scope={} nvar={}{}", xs.len().min(12), nv_tag(xs), null_tag(xs), scope, variants.len().min(40),
+            if variants.is_empty() { " nt=0" } else { "" });
+        let ys: Vec<Vec<f64>> = variants.iter().map(|(_, m)| insert_nulls(xs, m)).collect();
+        self.em.case("custom:rel:exact", &format!("fn=aggb {}", base),
+            &format!("part=ins group=aggb (vany vall) base xs={} insertion patterns (N = inserted null flag) {:?}", fmt_xs(xs), pats),
+            || format!("(aggb {})", coq_fl(xs)),
+            || { let mut c = imp::aggb_runs(xs); for y in ys.iter() { c.push(Cell::Sep); c.extend(imp::aggb_runs(y)) } c });
+    }
+    /// observations that do not count are inserted: (null value, any flag), (value, null flag), (value, false flag)
+    fn ins_aggk(&mut self, rng: &mut Rng, xs: &[f64], ms: &[f64], variants: &[(String, Vec<bool>)], scope: &str) {
+        let len = xs.len();
+        let maxmp = len.min(4) + 1;
+        let mut vx: Vec<Vec<f64>> = vec![];
+        let mut vm: Vec<Vec<f64>> = vec![];
+        let mut pats: Vec<String> = vec![];
+        for (name, m) in variants {
+            let (mut a, mut b, mut s) = (vec![], vec![], String::new());
+            let (mut ia, mut ib) = (xs.iter(), ms.iter());
+            for bit in m {
+                if *bit {
+                    let v = rng.range(-12, 12) as f64 / 4.0;
+                    match rng.below(5) {
+                        0 => { a.push(f64::NAN); b.push(1.0); s.push('n') }        // null value, true flag
+                        1 => { a.push(f64::NAN); b.push(f64::NAN); s.push('N') }   // null value, null flag
+                        2 => { a.push(f64::NAN); b.push(-1.0); s.push('m') }       // null value, false flag
+                        3 => { a.push(v); b.push(f64::NAN); s.push('f') }          // value, null flag
+                        _ => { a.push(v); b.push(-1.0); s.push('F') }              // value, false flag
+                    }
+                } else { a.push(*ia.next().unwrap()); b.push(*ib.next().unwrap()); s.push('.') }
+            }
+            pats.push(format!("{}:{} -> xs'={} mask'={}", name, s, fmt_xs(&a), fmt_xs(&b)));
+            vx.push(a); vm.push(b);
+        }
+        let base = format!("part=ins len={} nv={} scope={} nvar={}{}", len.min(12), nv_tag(xs), scope, variants.len().min(40), if variants.is_empty() { " nt=0" } else { "" });
+        self.em.case("custom:rel:1e-9", &format!("fn=aggk {}", base),
+            &format!("part=ins group=aggk (mp 0..={}: masked count / sum / mean) base xs={} mask={}; inserted observations {:?}", maxmp, fmt_xs(xs), fmt_xs(ms), pats),
+            || format!("(aggk {} {} {})", coq_nat(maxmp), coq_fl(xs), coq_fl(ms)),
+            || { let mut c = imp::aggk_runs(xs, ms, maxmp);
+                 for k in 0..vx.len() { c.push(Cell::Sep); c.extend(imp::aggk_runs(&vx[k], &vm[k], maxmp)) }
+                 c });
+    }
     // ---------------- part=ins --------------------------------------------------------------------------
     /// `variants`: (pattern name, mask); every variant is one run, alternating Vec<f64> / Vec<Option<f64>> / option view
     fn ins_single(&mut self, xs: &[f64], variants: &[(String, Vec<bool>)], scope: &str) {
@@ -805,6 +925,37 @@ fn main() {
                     for m in masks(n, k) { variants.push(("all".into(), m)) }
                 }
                 g.ins_pair(&mut rng, &xs, &ys, &variants, "exh");
+            }
+        }
+    }
+    // ============ audit: vany / vall and the masked family, part=enc and part=ins ===========================
+    {
+        let ab = [-1.0, 2.0, f64::NAN];
+        for len in 0..=(if thorough { 5 } else { 4 }) {
+            for xs in all_series(&ab, len) { g.enc_aggb(&xs, "exh") }
+        }
+        for len in 0..=2 {
+            for xs in all_series(&[0.5, 2.0, f64::NAN], len) {
+                for ms in all_series(&ab, len) { g.enc_aggk(&xs, &ms, "exh") }
+            }
+        }
+        for si in 0..(if thorough { 200 } else { 40 }) {
+            let len = rng.range(1, if si % 4 == 0 { 30 } else { 10 }) as usize;
+            let (xs, _) = series(&mut rng, len, si % 3 == 0);
+            let (ms, _) = series(&mut rng, if si % 7 == 0 { len / 2 + 1 } else { len }, true);
+            g.enc_aggb(&ms, "rand");
+            g.enc_aggk(&xs, &ms, "rand");
+            let pats = patterns(&mut rng, len);
+            g.ins_aggb(&xs, &pats, "rand");
+            if ms.len() == len { g.ins_aggk(&mut rng, &xs, &ms, &pats, "rand") }
+        }
+        // exhaustive insertion: every base over {-1, 2} of length 0..=3, every pattern up to total length 5
+        for k in 0..=3 {
+            for xs in all_series(&[-1.0, 2.0], k) {
+                let mut variants: Vec<(String, Vec<bool>)> = vec![];
+                for n in (k + 1)..=5 { for m in masks(n, k) { variants.push(("all".into(), m)) } }
+                g.ins_aggb(&xs, &variants, "exh");
+                for ms in all_series(&[-1.0, 2.0], k) { g.ins_aggk(&mut rng, &[0.5, 2.0, -1.0][..k].to_vec(), &ms, &variants, "exh") }
             }
         }
     }
